@@ -1,6 +1,88 @@
-(* C06 -- placeholder, replaced below *)
+(* C06 -- computed (ancillary) features reflect the current data and settings.
+   Property theorems only; each is closed by [exact] of a lemma proved in
+   Proofs/C06*.v and followed by Print Assumptions.
+   [registry] is GENERATED from the dclab tree under test
+   (harness/translators/anc_trace.py -> Gen/AncRegistry.v). *)
 From Coq Require Import ZArith List Bool.
-From Verif Require Import Model.C06.
-Theorem C06_stub : True.
-Proof. exact I. Qed.
-Print Assumptions C06_stub.
+From Verif Require Import Model.C06 Gen.AncRegistry Proofs.C06_registry.
+Import ListNotations.
+Open Scope Z_scope.
+
+(* Registry completeness (bound: the generated table; ingredients observed in
+   the traced environments): every recipe not named by a known finding reads
+   only ingredients that its cache key covers. *)
+Theorem C06_registry_complete_partial :
+  forall r, In r registry -> known_incomplete r = false ->
+            uses_declared r = true.
+Proof. exact registry_complete_partial. Qed.
+Print Assumptions C06_registry_complete_partial.
+
+(* The unguarded statement is false of today's table (emodulus, 2-channel
+   fl*_max_ctc, bright_bc_*/bright_perc_*, ml_class). *)
+Theorem C06_registry_complete_refuted :
+  exists r, In r registry /\ uses_declared r = false.
+Proof. exact registry_complete_refuted. Qed.
+Print Assumptions C06_registry_complete_refuted.
+
+(* Instances whose cache keys can coincide have the same required features,
+   method and ingredients (so a slot filled by one may be used by the other). *)
+Theorem C06_registry_collisions_harmless : collide_ok registry = true.
+Proof. exact registry_collide_ok. Qed.
+Print Assumptions C06_registry_collisions_harmless.
+
+(* Emodulus: for all 2^6 present/absent combinations of {lut, medium,
+   temperature, viscosity, viscosity model, temp feature} (medium known or
+   "other") the recipe chosen is the one of the documented precedence
+   C > B > A. *)
+Theorem C06_emodulus_precedence :
+  forall (lut med tmp visc vm ht : bool) (medv : Z),
+    medv = 1 \/ medv = 4 ->
+    sel_scenario registry (emod_base lut med tmp visc vm ht medv)
+    = spec_scenario lut med tmp visc ht.
+Proof. exact emodulus_precedence. Qed.
+Print Assumptions C06_emodulus_precedence.
+
+(* ... and compute_emodulus uses the inputs of that scenario, unless a
+   viscosity is configured next to a medium. *)
+Theorem C06_emodulus_inputs_partial :
+  forall (lut med tmp visc vm ht : bool),
+    visc && med = false ->
+    spec_scenario lut med tmp visc ht <> 0 ->
+    taken lut med tmp visc vm ht 1 = spec_scenario lut med tmp visc ht.
+Proof. exact emodulus_inputs_partial. Qed.
+Print Assumptions C06_emodulus_inputs_partial.
+
+Theorem C06_emodulus_inputs_refuted :
+  exists (lut med tmp visc vm ht : bool),
+    spec_scenario lut med tmp visc ht <> 0 /\
+    taken lut med tmp visc vm ht 1 <> spec_scenario lut med tmp visc ht.
+Proof. exact emodulus_inputs_refuted. Qed.
+Print Assumptions C06_emodulus_inputs_refuted.
+
+(* "available exactly when reading succeeds" is false: case-A ingredients
+   plus 'emodulus viscosity'. *)
+Theorem C06_available_iff_readable_refuted :
+  exists b : base,
+    contains AF registry (fresh b) f_emodulus = true
+    /\ snd (read RF registry (fresh b) f_emodulus) = Err e_value.
+Proof. exact available_iff_readable_refuted. Qed.
+Print Assumptions C06_available_iff_readable_refuted.
+
+(* availability on a long-lived dataset can differ from a fresh one. *)
+Theorem C06_contains_fresh_refuted :
+  exists (b : base) (ops : list op) (f : Z),
+    let st := run_state registry (fresh b) ops in
+    contains AF registry st f = true
+    /\ contains AF registry (clear st) f = false
+    /\ snd (read RF registry st f) = Err e_key.
+Proof. exact contains_fresh_refuted. Qed.
+Print Assumptions C06_contains_fresh_refuted.
+
+(* a read can return a value that a fresh dataset would not compute. *)
+Theorem C06_read_fresh_refuted :
+  exists (b : base) (ops : list op) (f : Z),
+    let st := run_state registry (fresh b) ops in
+    exists v v0, snd (read RF registry st f) = Ok v
+                 /\ snd (read RF registry (clear st) f) = Ok v0 /\ v <> v0.
+Proof. exact read_fresh_refuted. Qed.
+Print Assumptions C06_read_fresh_refuted.
